@@ -29,22 +29,23 @@ type Mutation struct {
 // ScriptPlan describes one hello built by the toolbox client and fed to a
 // fresh NewConn over a scripted transport.
 type ScriptPlan struct {
-	Keys       []KeySpec `json:"keys"`      // keys of the client-facing server
-	Target     KeySpec   `json:"target"`    // key the client encrypts to
-	SuiteIdx   int       `json:"suite_idx"` // which of Target.Suites the client uses
-	InnerSNI   string    `json:"inner_sni"`
-	InnerALPN  []string  `json:"inner_alpn,omitempty"`
-	ExtraIn    int       `json:"extra_in"`
-	ExtraOut   int       `json:"extra_out"`
-	MaxData    int       `json:"max_data"`
-	Pad        int       `json:"pad"`
-	Compress   bool      `json:"compress"`
-	NoECH      bool      `json:"no_ech,omitempty"` // plain hello without ECH (pass-through family)
-	Grease     bool      `json:"grease,omitempty"` // GREASE ECH extension (random payload)
-	TLS13      bool      `json:"tls13"`
-	NoVersions bool      `json:"no_versions,omitempty"`
-	RecVer     uint16    `json:"rec_ver"`
-	LegacyVer  uint16    `json:"legacy_ver,omitempty"` // ClientHello.legacy_version of a plain hello (0 = 0x0303)
+	Keys        []KeySpec `json:"keys"`      // keys of the client-facing server
+	Target      KeySpec   `json:"target"`    // key the client encrypts to
+	SuiteIdx    int       `json:"suite_idx"` // which of Target.Suites the client uses
+	InnerSNI    string    `json:"inner_sni"`
+	InnerALPN   []string  `json:"inner_alpn,omitempty"`
+	ExtraIn     int       `json:"extra_in"`
+	ExtraOut    int       `json:"extra_out"`
+	MaxData     int       `json:"max_data"`
+	Pad         int       `json:"pad"`
+	Compress    bool      `json:"compress"`
+	NoECH       bool      `json:"no_ech,omitempty"` // plain hello without ECH (pass-through family)
+	Grease      bool      `json:"grease,omitempty"` // GREASE ECH extension (random payload)
+	TLS13       bool      `json:"tls13"`
+	NoVersions  bool      `json:"no_versions,omitempty"`
+	RecVer      uint16    `json:"rec_ver"`
+	LegacyVer   uint16    `json:"legacy_ver,omitempty"`  // ClientHello.legacy_version of a plain hello (0 = 0x0303)
+	Compression []byte    `json:"compression,omitempty"` // legacy_compression_methods of a plain hello (nil = {0})
 	// HRRThenHello2 (pass-through family): the backend answers with a
 	// HelloRetryRequest and the client repeats its hello; both must pass untouched.
 	HRRThenHello2 bool `json:"hrr_then_hello2,omitempty"`
@@ -170,6 +171,9 @@ func buildScript(seed uint64, p *ScriptPlan) (*built, error) {
 		if p.LegacyVer != 0 {
 			h.Version = p.LegacyVer
 		}
+		if len(p.Compression) > 0 {
+			h.Compression = p.Compression
+		}
 		b.outer = h
 		b.outerRec = h.Record(recVer)
 		if len(b.outerRec) > 5+16384 {
@@ -199,6 +203,10 @@ func buildScript(seed uint64, p *ScriptPlan) (*built, error) {
 		if i < from {
 			from, to = from-1, to-1
 		}
+	}
+	if hasMut(p.Mutations, "inner-ech-empty") != nil {
+		i := inner.Find(echbox.ExtECH)
+		inner.Exts[i].Data = nil
 	}
 	if hasMut(p.Mutations, "inner-no-tls13") != nil {
 		// only the inner hello stops offering TLS 1.3 (the generator disables
@@ -243,7 +251,23 @@ func buildScript(seed uint64, p *ScriptPlan) (*built, error) {
 		switch m.Kind {
 		case "pad-nonzero":
 			if p.Pad > 0 {
-				encoded[len(encoded)-p.Pad+m.A%p.Pad] = byte(1 + m.B%255)
+				pad := encoded[len(encoded)-p.Pad:]
+				switch {
+				case m.B%4 == 1 && p.Pad >= 2: // two equal non-zero bytes
+					v := byte(1 + m.B%255)
+					i := m.A % p.Pad
+					j := (i + 1 + (m.A/7)%(p.Pad-1)) % p.Pad
+					pad[i], pad[j] = v, v
+				case m.B%4 == 2: // the whole padding
+					for i := range pad {
+						pad[i] = 0xff
+					}
+				case m.B%4 == 3 && p.Pad >= 3: // bytes whose XOR is zero
+					i := m.A % (p.Pad - 2)
+					pad[i], pad[i+1], pad[i+2] = 1, 2, 3
+				default:
+					pad[m.A%p.Pad] = byte(1 + m.B%255)
+				}
 			}
 		case "oe-odd":
 			ts := oeTypes()
@@ -372,7 +396,11 @@ func buildScript(seed uint64, p *ScriptPlan) (*built, error) {
 		if pos <= pair.EchIdx {
 			pair.EchIdx++
 		}
-		outer.Exts = slices.Insert(outer.Exts, pos, echbox.OuterExtsExt([]uint16{10}))
+		oe := echbox.OuterExtsExt([]uint16{10})
+		if m := hasMut(p.Mutations, "outer-has-oe"); m.A%3 == 0 {
+			oe.Data = nil // an ech_outer_extensions extension with an empty body
+		}
+		outer.Exts = slices.Insert(outer.Exts, pos, oe)
 	}
 
 	// key / info / suite substitutions (C02)
@@ -464,6 +492,12 @@ func buildScript(seed uint64, p *ScriptPlan) (*built, error) {
 			ct, _ := s2.SealRaw(aad, encoded)
 			e.Enc, e.Payload = s2.Enc, ct
 			o2.Exts[pair.EchIdx].Data = e.Bytes()
+		case "outer-ech-empty":
+			o2.Exts[pair.EchIdx].Data = nil // the extension is there, its body is gone
+		case "ech-trailing":
+			// extra bytes inside the extension after the payload, lengths consistent
+			d := append([]byte(nil), o2.Exts[pair.EchIdx].Data...)
+			o2.Exts[pair.EchIdx].Data = append(d, core.Bytes(r, 1+m.A%40)...)
 		case "outer-ech-type":
 			// ECH extension of type inner (1) or of an unknown type in the outer hello
 			t := byte(1)
@@ -526,6 +560,7 @@ type scriptOutcome struct {
 	closes    int
 	panicMsg  string
 	panicSite string
+	aliased   bool
 }
 
 func runScript(keys []ech.Key, in []byte, chunks []int, readBuf int) (*scriptOutcome, *simnet.ScriptConn) {
@@ -542,12 +577,22 @@ func runScriptW(keys []ech.Key, in []byte, chunks []int, readBuf int, afterNewCo
 	var conn *ech.Conn
 	panicked, msg, site := core.Guard(func() {
 		var err error
-		conn, err = ech.NewConn(context.Background(), sc, ech.WithKeys(keys))
+		conn, err = ech.NewConn(context.Background(), sc, keyOptions(keys)...)
 		o.err = err
 		if err != nil {
 			return
 		}
 		o.accepted, o.presented, o.name, o.alpn = conn.ECHAccepted(), conn.ECHPresented(), conn.ServerName(), conn.ALPNProtos()
+		// what the accessor hands out belongs to the caller
+		if scribble := conn.ALPNProtos(); len(scribble) > 0 {
+			for i := range scribble {
+				scribble[i] = "scribbled"
+			}
+			slices.Reverse(scribble)
+			if again := conn.ALPNProtos(); !slices.Equal(again, o.alpn) {
+				o.aliased = true
+			}
+		}
 		if afterNewConn != nil {
 			if n, err := conn.Write(afterNewConn); err != nil || n != len(afterNewConn) {
 				o.readErr = fmt.Errorf("Conn.Write of the backend flight: n=%d err=%v", n, err)
@@ -665,6 +710,9 @@ func executeScript(t *testing.T, prop string, seed uint64, p *ScriptPlan) *core.
 	if o.panicMsg != "" {
 		res.Fail(prop, "panic", o.panicSite+": "+normMsg(o.panicMsg), "%s", mk)
 		return finishScript(res, p, o, mk)
+	}
+	if o.aliased {
+		res.Fail(prop, "reconstruction", "ALPNProtos changes after the caller modified the slice it was handed", "%s", mk)
 	}
 	switch p.Expect {
 	case "accept":
